@@ -1052,7 +1052,27 @@ func (e *Engine) builtin(fr *frame, name string, args []Value, c *ssa.CallCommon
 		}
 		return args[0]
 	case "min", "max":
-		panic(engineErr("builtin %s not modelled", name))
+		var ty types.Type
+		if c != nil {
+			ty = c.Args[0].Type()
+		}
+		r := args[0].(*Term)
+		for _, a := range args[1:] {
+			t := a.(*Term)
+			var lt *Term
+			if ty != nil && isFloat(ty) {
+				lt = e.tb.Cmp("<", IntTy{}, t, r)
+			} else {
+				it, _ := intTyOf(ty)
+				lt = e.tb.Cmp("<", it, t, r)
+			}
+			if name == "min" {
+				r = e.tb.Ite(lt, t, r)
+			} else {
+				r = e.tb.Ite(lt, r, t)
+			}
+		}
+		return r
 	}
 	panic(engineErr("builtin %s on %T not modelled", name, args[0]))
 }
